@@ -9,6 +9,7 @@ import (
 	"time"
 
 	"github.com/nuetzliches/hookaido/internal/verifkit/lin"
+	"github.com/nuetzliches/hookaido/internal/verifkit/qcheck"
 	"github.com/nuetzliches/hookaido/internal/verifkit/qmodel"
 	"github.com/nuetzliches/hookaido/internal/verifkit/qsched"
 	"github.com/nuetzliches/hookaido/internal/verifkit/runner"
@@ -70,6 +71,9 @@ func canonSet(in map[string]bool) map[string]bool {
 
 func TestCheck(t *testing.T) {
 	r := runner.Start("C03", "model_checking")
+	if qcheck.HandleReplay(r, []qcheck.Spec{{Name: "c03-hist", Extra: grants}}, nil) {
+		r.Finish()
+	}
 	historyPart(r)
 	type run struct {
 		sc    qsched.Scenario
